@@ -305,6 +305,13 @@ pub fn universe() -> Vec<Member> {
         m!(HandEnum, "HandEnum"),
         m!(Rc<HandEnum>, "HandEnum"),
         m!(HandTuple, "HandTuple"),
+        // the two types whose definition function counts its calls, reached through built-in constructors
+        m!(Compact<HandFull>, "Compact<HandFull>"),
+        m!(Option<HandFull>, "Option<HandFull>"),
+        m!([HandEnum; 2], "[HandEnum;2]"),
+        m!((HandFull, HandEnum), "(HandFull,HandEnum)"),
+        m!(BTreeMap<HandEnum, HandFull>, "BTreeMap<HandEnum,HandFull>"),
+        m!(G<HandEnum>, "G<HandEnum>"),
         m!(HandWs, "HandWs"),
         m!(Doc<u8>, "Doc<u8>"),
         m!(Doc<bool>, "Doc<bool>"),
